@@ -47,18 +47,23 @@ func c14r1(r *R) {
 		}
 	}
 	r.Ob("C14.R1", "instances").Check(n >= 2, "expected >= 2 accesses to currentCert, found %d", n)
-	// every lock is released on all paths (no lock leak): for each Lock/RLock call, every path to return passes the matching unlock or a deferred unlock exists
-	for _, fn := range c.FuncsIn("pkg/certwatcher") {
-		for _, l := range callsIn(fn, "(*sync.RWMutex).Lock", "(*sync.RWMutex).RLock") {
+	locksReleased(r, "C14.R1", "pkg/certwatcher")
+}
+
+// locksReleased: every Lock/RLock in the given packages is released on all paths to return (no lock leak): the matching
+// unlock is deferred right after the acquisition, or every path from it to a return passes the unlock.
+func locksReleased(r *R, rule string, pkgs ...string) {
+	c := r.C
+	n := 0
+	for _, fn := range c.FuncsIn(pkgs...) {
+		for _, l := range callsIn(fn, "(*sync.RWMutex).Lock", "(*sync.RWMutex).RLock", "(*sync.Mutex).Lock") {
 			if _, ok := l.(*ssa.Call); !ok {
 				continue
 			}
+			n++
 			key := c.Expr(callOf(l).Args[0])
-			un := "(*sync.RWMutex).Unlock"
-			if calleeName(callOf(l)) == "(*sync.RWMutex).RLock" {
-				un = "(*sync.RWMutex).RUnlock"
-			}
-			o := r.Ob("C14.R1", "released:"+funcName(fn)+":"+calleeName(callOf(l))).AtI(l)
+			un := map[string]string{"(*sync.RWMutex).Lock": "(*sync.RWMutex).Unlock", "(*sync.RWMutex).RLock": "(*sync.RWMutex).RUnlock", "(*sync.Mutex).Lock": "(*sync.Mutex).Unlock"}[calleeName(callOf(l))]
+			o := r.Ob(rule, "released:"+funcName(fn)+":"+calleeName(callOf(l))).AtI(l)
 			deferred := deferOf(fn, func(d *ssa.Defer) bool {
 				return calleeName(&d.Call) == un && c.Expr(d.Call.Args[0]) == key && instrDominates(l, d) && d.Block() == l.Block()
 			})
@@ -69,9 +74,10 @@ func c14r1(r *R) {
 				_, isCall := i.(*ssa.Call)
 				return isCall && isCall2(i, un) && c.Expr(callOf(i).Args[0]) == key
 			}, isReturn)
-			o.Check(p == nil, "lock taken in %s is not released on a path to return (every later handshake or reload would block): %v", funcName(fn), p)
+			o.Check(p == nil, "lock taken in %s is not released on a path to return (whoever needs it next blocks forever): %v", funcName(fn), p)
 		}
 	}
+	r.Ob(rule, "released:instances").Check(n >= 1, "no lock acquisition found in %v", pkgs)
 }
 
 func isCall2(i ssa.Instruction, name string) bool { return isCall(i, name) }
